@@ -1369,6 +1369,15 @@ func (m *Model) dominatesLifted(root *ssa.Function, a, b ssa.Instruction) bool {
 		return la != b && dominatesInstr(la, b) && m.dominatesReturns(a)
 	}
 	la, lb := m.liftTo(root, a), m.liftTo(root, b)
+	if la != nil && la == lb {
+		// both lie inside the same call of root: compare inside the callee
+		if ci, ok := la.(ssa.CallInstruction); ok {
+			if g := ci.Common().StaticCallee(); g != nil && g != root && g.Blocks != nil {
+				return m.dominatesLifted(g, a, b)
+			}
+		}
+		return false
+	}
 	return la != nil && lb != nil && la != lb && dominatesInstr(la, lb) && m.dominatesReturns(a)
 }
 
